@@ -126,6 +126,16 @@ def build_go(name, pkgdir, tags=("verif",), race=False, module="harness"):
     if module == "harness":
         sync_gosum()
     cmd = ["go", "build", "-ldflags=" + LDFLAGS, "-o", out]
+    if REPO != "/repo" and module == "harness":
+        # mutation trials: build against another tree (VERIF_REPO) without touching /repo or go.mod
+        alt = os.path.join(BUILD, "harness.alt.mod")
+        txt = open(os.path.join(moddir, "go.mod")).read().replace("=> /repo", "=> " + REPO)
+        open(alt, "w").write(txt)
+        try:
+            open(os.path.join(BUILD, "harness.alt.sum"), "w").write(open(os.path.join(REPO, "go.sum")).read())
+        except OSError:
+            pass
+        cmd += ["-modfile=" + alt]
     if tags:
         cmd += ["-tags", ",".join(tags)]
     if race:
